@@ -21,12 +21,13 @@ MENU = {
     "N-name": (False, lambda l: ("add", "RA", "other", l)),
     "N-ftype": (False, lambda l: ("addf", "RB", "n", l, "sync")),
     "N-fname": (False, lambda l: ("addf", "RA", "other", l, "async")),
+    "N-private": (False, lambda l: ("add", "RA", "n", l, False, "private")),
 }
 
 
 def pub_sequences(tier: str) -> list[tuple]:
     ms = [k for k, v in MENU.items() if v[0]]
-    ns = [k for k, v in MENU.items() if not v[0]]
+    ns = [k for k, v in MENU.items() if not v[0] and k != "N-private"]
     seqs: list[tuple] = [(m,) for m in ms] + [(n,) for n in ns]
     for m in ms:
         for n in ns:
@@ -40,6 +41,7 @@ def pub_sequences(tier: str) -> list[tuple]:
     else:
         seqs.append(("N-type", "N-name", "M-res"))
         seqs.append(("N-ftype", "N-fname", "M-fasync"))
+    seqs += [("N-private",), ("N-private", "M-res"), ("N-private", "M-fasync")]
     return [q for q in seqs if not ("M-multi" in q and "N-type" in q)]
 
 
@@ -107,6 +109,10 @@ class C06(E1Check):
                 for gates in itertools.product((False, True), repeat=3):
                     for api in (("method", "shortcut"), ("inject", "method")):
                         progs.append({"kind": "multi", "order": order, "pubs": list(pubs), "gates": list(gates), "apis": list(api), "small": False})
+        # two tolerant waiters and an async factory whose first call fails (behind a gate) while the other waiter is parked on it
+        for order in ("wwp", "pww", "wpw"):
+            for g in (False, True):
+                progs.append({"kind": "flaky", "order": order, "pgate": g, "small": False})
         # a long burst of non-matching publications ahead of the matching one while the waiter is parked
         for n in (3, 60):
             for order in ("wp", "pw"):
@@ -151,6 +157,15 @@ class C06(E1Check):
                 # not remapped: lands under "default"; a later matching publication releases the waiter
                 pub["start"] = [("add", "RA", "n", "late-match")] if False else None
             kids = [w, pub] if p["order"] == "wp" else [pub, w]
+        elif kind == "flaky":
+            def tol(alias: str) -> dict:
+                return {"alias": alias, "children": [], "prepare": None,
+                        "start": [("get", "RA", "n", "shortcut", False, alias, "tolerate")]}
+
+            pub = {"alias": "p", "children": [], "prepare": None,
+                   "start": ([("gate", "p")] if p["pgate"] else []) + [("addf", "RA", "n", "flaky", "aflaky")]}
+            ws = iter([tol("w1"), tol("w2")])
+            kids = [next(ws) if ch == "w" else pub for ch in p["order"]]
         elif kind == "burst":
             w = waiter("w", "start", False, "shortcut")
             steps2: list = [("gate", "p")]
@@ -191,20 +206,21 @@ class C06(E1Check):
         return {"alias": "", "children": kids, "prepare": None, "start": None}
 
     def has_match(self, p: dict) -> bool:
-        if p["kind"] in ("multi", "burst"):
+        if p["kind"] in ("multi", "burst", "flaky"):
             return True
         if p["kind"] == "alias":
             return p["where"] == "start"
         return any(MENU[i][0] for i in p["seq"])
 
     def deadlock_ok(self, program: Any) -> bool:
-        return program["kind"] in ("basic", "alias", "two", "multi", "burst") and not self.has_match(program)
+        return program["kind"] in ("basic", "alias", "two", "multi", "burst", "flaky") and not self.has_match(program)
 
     async def main(self, env: Any, program: dict) -> None:
         from asphalt.core import Context, ResourceNotFound, start_component
 
         tree = Tree(env, self.build(program))
         env.data["tree"] = tree
+        env.data["kind"] = program["kind"]
         env.quiescent_hooks.append(lambda: self.at_quiescence(env))
         async with Context() as ctx:
             if program["kind"] == "control" and program["ctl"] == "outer":
@@ -248,8 +264,8 @@ class C06(E1Check):
         return None
 
     def at_quiescence(self, env: Any) -> None:
-        if env.data.get("q-failed"):
-            return
+        if env.data.get("q-failed") or env.data.get("kind") == "flaky":
+            return  # (in the flaky-factory programs a released waiter is legitimately parked inside the factory call)
         issued: dict[str, tuple] = {}
         done: set[str] = set()
         pubs = []
@@ -274,6 +290,21 @@ class C06(E1Check):
         tr = env.trace
         fail = env.fail
         kind = program["kind"]
+        if kind == "flaky":
+            # every waiter is released by the factory's publication: one sees the factory's own failure, the other one
+            # produces the resource itself; nobody hangs
+            ends = {ev[1]: ev for ev in tr if ev[0] in ("get-", "get!")}
+            for w in ("w1", "w2"):
+                if w not in ends:
+                    fail("lost-wakeup", f"waiter {w} never returned although the matching factory had been published (outcome {outcome})")
+                elif ends[w][0] == "get!" and ends[w][2] != "FlakyError":
+                    fail("false-failure", f"waiter {w} failed with {ends[w][2]}")
+            got = [ev[2] for ev in ends.values() if ev[0] == "get-"]
+            if any(g != "flaky#2" for g in got) or len(got) > 2:
+                fail("wrong-object", f"waiters returned {got}, the factory's (second, successful) product is flaky#2")
+            if not any(ev[0] == "returned" for ev in tr):
+                fail("lost-wakeup", f"start_component never returned (outcome {outcome})")
+            return
         def first_match(want: tuple) -> tuple:
             for i, ev in enumerate(tr):
                 if ev[0] in ("added", "addedf"):
